@@ -169,6 +169,7 @@ Progress ==
 
 \* ---------------------------------------------------------------- model constants
 BndsAll == {<<66>>, <<66, 66>>, <<45, 66>>}
+BndsB == {<<66>>}
 Open(bnd)  == <<45, 45>> \o bnd \o CRLF \o <<72>> \o CRLFCRLF        \* first delimiter + one header line
 Again(bnd) == Delim(bnd) \o CRLF \o <<72>> \o CRLFCRLF                \* next delimiter + header
 StdPrefixes == [bnd \in BndsAll |->
